@@ -195,6 +195,9 @@ func setup(verifDir, repo string) int {
 			die2("build pamsim: %v", err)
 		}
 	}
+	if rc := check(verifDir, repo, "X-SIMFS", "quick", ""); rc != 0 {
+		die2("simfs differential self-test failed (exit %d)", rc)
+	}
 	fmt.Printf("setup ok in %.1fs (build dir %s)\n", time.Since(start).Seconds(), g.BuildDir)
 	return 0
 }
@@ -438,7 +441,12 @@ func check(verifDir, repo, id, tier, replay string) int {
 	seen := map[string]bool{}
 	exit := 0
 	nviol := 0
-	os.MkdirAll(filepath.Join(verifDir, "replays"), 0o755)
+	replayDir := filepath.Join(verifDir, "replays")
+	if repo != "/repo" {
+		// self-test against a scratch tree: keep its replay and evidence files apart
+		replayDir = filepath.Join(verifDir, ".build", "scratch-replays")
+	}
+	os.MkdirAll(replayDir, 0o755)
 	var reported []map[string]any
 	for _, v := range viols {
 		if seen[v.Sig] {
@@ -450,7 +458,7 @@ func check(verifDir, repo, id, tier, replay string) int {
 			continue
 		}
 		h := sha256.Sum256([]byte(v.Sig))
-		rp := filepath.Join(verifDir, "replays", fmt.Sprintf("%s-%s-%d.json", id, hex.EncodeToString(h[:4]), v.Seed))
+		rp := filepath.Join(replayDir, fmt.Sprintf("%s-%s-%d.json", id, hex.EncodeToString(h[:4]), v.Seed))
 		rf := replayFile{Prop: id, Sig: v.Sig, Msg: v.Msg, Seed: v.Seed, Tier: tier, Tape: v.Tape, Decisions: v.Decisions, Log: v.Log, LogHash: v.LogHash, OrigLen: v.OrigLen, Pkg: meta.Pkg, SeedOnly: v.LogHash == "crash"}
 		b, _ := json.MarshalIndent(rf, "", " ")
 		os.WriteFile(rp, b, 0o644)
@@ -506,7 +514,18 @@ func check(verifDir, repo, id, tier, replay string) int {
 	}
 
 	wall := time.Since(start).Seconds()
+	if strings.HasPrefix(id, "X-") {
+		// self-tests write no evidence file
+	} else if repo != "/repo" {
+		verifDirE := filepath.Join(verifDir, ".build", "scratch-evidence")
+		os.MkdirAll(verifDirE, 0o755)
+		writeEvidence(verifDirE, id, tier, seed, meta, agg, len(distinct), nviol, reported, knownOut, foreign, wall, nworkers, genInfo, exit)
+	} else {
+		writeEvidence(verifDir, id, tier, seed, meta, agg, len(distinct), nviol, reported, knownOut, foreign, wall, nworkers, genInfo, exit)
+	}
+	if false {
 	writeEvidence(verifDir, id, tier, seed, meta, agg, len(distinct), nviol, reported, knownOut, foreign, wall, nworkers, genInfo, exit)
+	}
 	fmt.Printf("%s %s: runs=%d steps=%d distinct_nontrivial=%d violations=%d wall=%.1fs exit=%d\n", id, tier, agg.Runs, agg.Steps, len(distinct), nviol, wall, exit)
 	return exit
 }
